@@ -479,6 +479,50 @@ def run(ctx):
                 l1 += 1
                 ctx.violation("named-directory %s" % name, {"stage": "L1 a named directory with symbolic links back into the tree", "files": sorted(files), "links": links,
                                                             "exit": res["rc"], "analysed": analysed, "expected": want, "stdout_tail": res["stdout"][-600:], "broken": None})
+    # ---- every file is read once: the system calls of the real binary (audit C19 round 2 f1: a readability test before the parser
+    #      opened every included file a second time — visible with a FIFO, which can be read only once)
+    import shutil
+    import subprocess
+    if shutil.which("strace"):
+        with vlib.Workdir("c19s") as wd4:
+            t2 = "pragma circom 2.0.0;\n%stemplate %s() { signal input a; signal output b; b <== a; }\n"
+            slayouts = [
+                ("chain", {"a.circom": t2 % ('include "b.circom";\n', "A"), "b.circom": t2 % ('include "c.circom";\n', "B"), "c.circom": t2 % ("", "C")}, ["a.circom"], []),
+                ("diamond", {"a.circom": t2 % ('include "b.circom";\ninclude "c.circom";\n', "A"), "b.circom": t2 % ('include "d.circom";\n', "B"),
+                             "c.circom": t2 % ('include "./d.circom";\n', "C"), "d.circom": t2 % ("", "D")}, ["a.circom"], []),
+                ("named-and-included", {"a.circom": t2 % ('include "b.circom";\n', "A"), "b.circom": t2 % ("", "B")}, ["a.circom", "b.circom"], []),
+                ("cycle", {"a.circom": t2 % ('include "b.circom";\n', "A"), "b.circom": t2 % ('include "a.circom";\n', "B")}, ["a.circom"], []),
+                ("library", {"a.circom": t2 % ('include "l.circom";\n', "A"), "lib/l.circom": t2 % ('include "m.circom";\n', "L"), "lib/m.circom": t2 % ("", "M")}, ["a.circom"], ["lib"]),
+            ]
+            for name, files, inputs, libs in slayouts:
+                base = os.path.join(wd4.path, name)
+                for rel, text in files.items():
+                    wd4.write(os.path.join(name, rel), text.encode())
+                trace = os.path.join(base, "trace.txt")
+                argv = ["strace", "-f", "-qq", "-e", "trace=open,openat", "-o", trace, cli] + [os.path.join(base, i) for i in inputs]
+                for l in libs:
+                    argv += ["-L", os.path.join(base, l)]
+                try:
+                    pr = subprocess.run(argv, stdout=subprocess.PIPE, stderr=subprocess.PIPE, timeout=60)
+                except subprocess.TimeoutExpired:
+                    continue
+                if not os.path.exists(trace):
+                    stats["strace unavailable"] += 1
+                    continue
+                opens = collections.Counter()
+                for line in open(trace, errors="replace"):
+                    m3 = re.search(r'open(?:at)?\(.*?"([^"]*\.circom)".*\)\s*=\s*(-?\d+)', line)
+                    if m3 and int(m3.group(2)) >= 0:
+                        opens[os.path.relpath(os.path.realpath(m3.group(1)), base)] += 1
+                stats["system-call traces"] += 1
+                stats["files opened (traced)"] += len(opens)
+                bad = {f: c for f, c in opens.items() if c != 1}
+                missing = [f for f in files if f not in opens]
+                if bad or missing or pr.returncode not in (0, 1):
+                    l1 += 1
+                    ctx.violation("file-opened-%s %s" % ("twice" if bad else "never", name),
+                                  {"stage": "L1 each file is read once (open/openat calls of the real binary)", "files": files, "inputs": inputs, "libs": libs,
+                                   "opens_per_file": dict(opens), "not_opened": missing, "exit": pr.returncode, "broken": None})
     if not ok:
         ctx.violation("theorem " + ";".join(failing)[:200], {"broken": "theorem", "failing": failing}, no_input=True)
     cov = ctx.coverage
